@@ -72,6 +72,8 @@ pub enum Profile {
     Limit,
     Forest,
     Queries,
+    /// many groups alive at once, most of them holding unread data
+    ManyGroups,
 }
 
 #[derive(Debug, Clone, Copy, PartialEq, Eq)]
@@ -114,6 +116,7 @@ impl Profile {
                 (Add, 18), (Bind, 24), (Put, 14), (Data, 12), (Merge, 16), (NextIdAdd, 4),
                 (Slice, 4), (Clone, 2), (SaveLoad, 2), (Script, 4),
             ],
+            Profile::ManyGroups => &[(Add, 30), (Bind, 34), (Put, 26), (Data, 4), (NextIdAdd, 4), (Kids, 2)],
             Profile::Queries => &[
                 (Add, 18), (Bind, 30), (Put, 16), (Data, 12), (Slice, 8), (Kid, 4), (Kids, 4),
                 (NextIdAdd, 4), (Merge, 4),
@@ -221,7 +224,7 @@ pub fn resolve(seed: &OpSeed, m: &Model, profile: Profile) -> Option<Call> {
     let kind = profile.pick_kind(k);
     let call = match kind {
         Kind::Add => {
-            let class = idx(a, 8);
+            let class = if (profile == Profile::ManyGroups || profile == Profile::Limit) && a & 1 == 0 { 0 } else { idx(a, 8) };
             let cands: Vec<usize> = match class {
                 0 | 1 => (0..m.cap).filter(|i| !m.present(*i) && m.incs[*i] == 0).collect(),
                 2 => (0..m.cap).filter(|i| !m.present(*i) && m.stale[*i]).collect(),
@@ -235,7 +238,15 @@ pub fn resolve(seed: &OpSeed, m: &Model, profile: Profile) -> Option<Call> {
             Call::Add(cands[idx(b, cands.len())])
         }
         Kind::Bind => {
-            let class = idx(a, 10);
+            let class = if profile == Profile::ManyGroups && a & 3 != 0 {
+                0
+            } else if profile == Profile::Limit && a & 3 == 1 {
+                8 // grow the largest group
+            } else if profile == Profile::Limit && a & 3 == 2 {
+                9 // fill the fullest vertex
+            } else {
+                idx(a, 10)
+            };
             let pres = present_where(m, |_| true);
             if pres.len() < 2 {
                 return None;
@@ -312,10 +323,18 @@ pub fn resolve(seed: &OpSeed, m: &Model, profile: Profile) -> Option<Call> {
             }
         }
         Kind::Put => {
-            let class = idx(a, 8);
+            let class = if profile == Profile::ManyGroups && a & 1 == 0 { 2 } else { idx(a, 8) };
             let cands = match class {
                 0 | 1 => present_where(m, |i| m.get(i).group.is_none()),
-                2 => present_where(m, |i| m.get(i).group.is_some() && m.get(i).data.is_none()),
+                // a grouped vertex without data, preferably in a group that has no unread datum yet
+                2 => {
+                    let v = present_where(m, |i| m.get(i).data.is_none() && m.get(i).group.is_some_and(|g| m.unread_in_group(g) == 0));
+                    if v.is_empty() {
+                        present_where(m, |i| m.get(i).group.is_some() && m.get(i).data.is_none())
+                    } else {
+                        v
+                    }
+                }
                 3 | 4 => present_where(m, |i| m.get(i).unread),
                 5 => present_where(m, |i| m.get(i).data.is_some() && !m.get(i).unread),
                 _ => present_where(m, |_| true),
@@ -494,4 +513,46 @@ pub fn classify(m: &Model, c: &Call) -> Vec<&'static str> {
 
 pub fn cfg_of(h: &HistSeed) -> Cfg {
     Cfg { n: pick_n(h.n_sel), cap: pick_cap(h.cap_sel) }
+}
+
+/// Profile ManyGroups starts from a "farm" of k groups that are alive at once, most of
+/// them holding an unread datum (k and the details come from the seed's header).
+pub fn prelude(profile: Profile, hs: &HistSeed, cfg: Cfg) -> Vec<Call> {
+    if profile == Profile::Limit && hs.order_sel & 1 == 1 && cfg.cap >= 17 {
+        // one group of 13..=16 members (each new vertex binds to an earlier one with its own first label)
+        let size = 13 + (hs.order_sel as usize >> 1) % 4;
+        let mut calls = vec![Call::Add(0)];
+        for i in 1..size {
+            calls.push(Call::Add(i));
+            let to = (hs.order_sel as usize >> (i % 9)) % i;
+            calls.push(Call::Bind { a: i, b: to, l: Lab::Alpha(0), parsed: false });
+            if (hs.n_sel as usize >> (i % 7)) & 1 == 1 {
+                calls.push(Call::Put(i, data_bytes((i * 4099) as u16, hs.order_sel)));
+            }
+        }
+        return calls;
+    }
+    if profile != Profile::ManyGroups {
+        return vec![];
+    }
+    let k = (hs.order_sel as usize % 15).min(cfg.cap / 2);
+    let mut calls = vec![];
+    for i in 0..k {
+        let (x, y) = (2 * i, 2 * i + 1);
+        calls.push(Call::Add(x));
+        calls.push(Call::Add(y));
+        let bits = (hs.order_sel as usize >> (i % 12)) ^ (hs.n_sel as usize >> (i % 5));
+        if bits & 1 == 0 {
+            calls.push(Call::Put(x, data_bytes((bits * 77) as u16, i as u16)));
+        }
+        calls.push(if bits & 2 == 0 {
+            Call::Bind { a: x, b: y, l: Lab::Alpha(0), parsed: false }
+        } else {
+            Call::Bind { a: y, b: x, l: Lab::Greek('ρ'), parsed: false }
+        });
+        if bits & 1 == 1 && bits & 12 != 0 {
+            calls.push(Call::Put(y, data_bytes((bits * 31) as u16, i as u16)));
+        }
+    }
+    calls
 }
